@@ -4,6 +4,7 @@ import (
 	"github.com/bolkedebruin/rdpgw/cmd/rdpgw/identity"
 	"github.com/bolkedebruin/rdpgw/cmd/rdpgw/transport"
 	"net"
+	"sync"
 	"time"
 )
 
@@ -28,6 +29,10 @@ type Tunnel struct {
 	RemoteAddr string
 	// User
 	User identity.Identity
+
+	// writeMu serializes writes to transportOut: the packet processor and the goroutine
+	// forwarding data from the remote desktop server both write to the client
+	writeMu sync.Mutex
 
 	// pending holds bytes read from transportIn that belong to packets not processed yet
 	pending []byte
@@ -62,6 +67,8 @@ func (t *Tunnel) Close() {
 
 // Write puts the packet on the transport and updates the statistics for bytes sent
 func (t *Tunnel) Write(pkt []byte) {
+	t.writeMu.Lock()
+	defer t.writeMu.Unlock()
 	n, _ := t.transportOut.WritePacket(pkt)
 	t.BytesSent += int64(n)
 }
